@@ -145,17 +145,21 @@ def s_map_err(ex, st, callee, args, argv, f):
     if not (isinstance(v, EnumV) and v.ety == "Result"):
         raise Unsupported("map_err on %r" % (v,))
     outs = []
-    d = disc_expr(v)
-    okc, errc = d == 0, d == 1
-    if ex.feasible(st, okc):
+    if isinstance(v.disc, int):
+        cases = [(v.disc == 0, None), (v.disc == 1, None)]
+    else:
+        cases = [(True, v.disc == 0), (True, v.disc == 1)]
+    take_ok, c_ok = cases[0]
+    take_err, c_err = cases[1]
+    if take_ok and (c_ok is None or ex.feasible(st, c_ok)):
         s2 = st.clone()
-        if not isinstance(v.disc, int):
-            s2.pc.append(okc)
+        if c_ok is not None:
+            s2.pc.append(c_ok)
         outs.append(Outcome(s2, ret=EnumV("Result", 0, {0: list(v.payloads.get(0, [UNIT]))})))
-    if ex.feasible(st, errc):
+    if take_err and (c_err is None or ex.feasible(st, c_err)):
         s3 = st.clone()
-        if not isinstance(v.disc, int):
-            s3.pc.append(errc)
+        if c_err is not None:
+            s3.pc.append(c_err)
         for o in ex.call_closure(s3, clo, [v.payloads.get(1, [UNIT])[0]]):
             if o.panic is not None:
                 outs.append(o)
@@ -277,6 +281,21 @@ def s_partial_eq_int(ex, st, callee, args, argv, f):
     raise Unsupported("PartialEq on %r" % (a,))
 
 
+def s_partial_ord(ex, st, callee, args, argv, f):
+    a, b = ex.deref_val(st, argv[0]), ex.deref_val(st, argv[1])
+    if not (z3.is_bv(a) and z3.is_bv(b)):
+        raise Unsupported("PartialOrd on %r, %r" % (a, b))
+    m = re.search(r"<&*([iu](?:8|16|32|64|size)) as PartialOrd>::(le|lt|ge|gt)$", callee)
+    signed, op = m.group(1).startswith("i"), m.group(2)
+    if op == "le":
+        return ok1(st, a <= b if signed else z3.ULE(a, b))
+    if op == "lt":
+        return ok1(st, a < b if signed else z3.ULT(a, b))
+    if op == "ge":
+        return ok1(st, a >= b if signed else z3.UGE(a, b))
+    return ok1(st, a > b if signed else z3.UGT(a, b))
+
+
 def s_identity(ex, st, callee, args, argv, f):
     return ok1(st, argv[0])
 
@@ -312,6 +331,7 @@ COMMON = [
     (r"^core::num::<impl u(?:8|16|32|64|size)>::checked_sub$", int_method("checked_sub")),
     (r"^core::num::<impl u(?:8|16|32|64|size)>::checked_add$", int_method("checked_add")),
     (r"^core::num::<impl u(?:8|16|32|64|size)>::abs_diff$", int_method("abs_diff")),
+    (r"^<&*[iu](?:8|16|32|64|size) as PartialOrd>::(?:le|lt|ge|gt)$", s_partial_ord),
     (r"^<u8 as Clone>::clone$|^<Option<u8> as Clone>::clone$", lambda ex, st, c, a, v, f: ok1(st, ex.deref_val(st, v[0]))),
 ]
 
